@@ -52,18 +52,27 @@ class Preemptions:
     """Default policy everywhere except at the steps in `at` ({step: k}), where alternative k (index into the enabled
     list, which starts with the running task when it is enabled; k >= 1 is a preemption or a non-default switch) is
     taken instead. `order` selects the default policy: 0 = kernel order (running task first, then ascending task id),
-    1 = running task first, then DESCENDING task id."""
+    1 = running task first, then DESCENDING task id, 2 = as 0 but a task that pauses (sleep) keeps running."""
 
     def __init__(self, at, order=0, record=None):
         self.at = {int(s): int(k) for s, k in dict(at).items()}
         self.order = order
         self.record = record      # optional list receiving (step, n_enabled)
+        self._naps = 0
 
     def __call__(self, enabled, kernel):
         if self.order == 1 and len(enabled) > 1:
             head = [t for t in enabled if t is kernel.last and not t.yielding]
             rest = sorted((t for t in enabled if t not in head), key=lambda t: (t.yielding, -t.id))
             enabled = head + rest
+        elif self.order == 2 and len(enabled) > 1:
+            # a pause does not hand over: the others are slower than any sleep ("however long a thread is delayed").
+            # A task that pauses 200 times in a row without anybody else running is polling: then it does hand over.
+            if kernel.last in enabled and kernel.last.yielding and self._naps < 200:
+                self._naps += 1
+                enabled = [kernel.last] + [t for t in enabled if t is not kernel.last]
+            else:
+                self._naps = 0
         if self.record is not None:
             self.record.append((kernel.steps, len(enabled)))
         k = self.at.get(kernel.steps)
